@@ -443,4 +443,12 @@ def main(argv):
             print('VIOLATION property=%s replay=%s' % (a.prop, a.replay))
         return code
     seed = int(os.environ.get('VERIF_SEED', '0') or 0)
-    return check_property(a.prop, a.tier, seed, a.jobs, a.update_baseline)
+    # solver input files of this run live in one directory that is removed at the end, also when a worker was killed
+    import shutil
+    import tempfile
+    scratch = tempfile.mkdtemp(prefix='pyvc-%s-' % a.prop)
+    os.environ['PYVC_SCRATCH'] = scratch
+    try:
+        return check_property(a.prop, a.tier, seed, a.jobs, a.update_baseline)
+    finally:
+        shutil.rmtree(scratch, ignore_errors=True)
